@@ -323,6 +323,7 @@ pub fn run(mode: &str, args: &Args) {
     match mode {
         "replay" => replay(args),
         "bytes" => bytes(args),
+        "noncanon" => noncanon(),
         _ => panic!("mode"),
     }
 }
@@ -499,6 +500,164 @@ fn bytes(args: &Args) {
                     }
                 };
                 out.emit(&ev);
+            }
+        }
+    }
+    out.flush();
+}
+
+// ---------------------------------------------------------------------------------------------
+// Non-canonical V2 payloads at byte level (deterministic, no seed): set-like fields with a DUPLICATED element - they
+// cannot be produced through the model types (IndexSet), so an honest payload with two distinct children [h1, h2] is
+// encoded and the bytes of h2 are overwritten with h1.  Recorded per payload (`noncanon`): prepare / decode verdicts,
+// whether re-encoding the decoded model reproduces the bytes, the identifier and an identity of the PREPARED content;
+// and per pair of payloads (`pair`): same bytes? both prepared? same prepared content?  TraceTxHashes decides.
+fn nc_core(children: &[[u8; 32]], disc: u64) -> IntentCoreV2 {
+    IntentCoreV2 {
+        header: IntentHeaderV2 {
+            network_id: NetworkDefinition::simulator().id,
+            start_epoch_inclusive: Epoch::of(0),
+            end_epoch_exclusive: Epoch::of(1),
+            min_proposer_timestamp_inclusive: None,
+            max_proposer_timestamp_exclusive: None,
+            intent_discriminator: disc,
+        },
+        blobs: BlobsV1::none(),
+        message: MessageV2::None,
+        children: ChildSubintentSpecifiersV2 { children: children.iter().map(|h| ChildSubintentSpecifier { hash: SubintentHash::from_bytes(*h) }).collect() },
+        instructions: InstructionsV2(vec![]),
+    }
+}
+fn nc_notarized(root_children: &[[u8; 32]], subs: Vec<SubintentV2>) -> NotarizedTransactionV2 {
+    let n = subs.len();
+    NotarizedTransactionV2 {
+        signed_transaction_intent: SignedTransactionIntentV2 {
+            transaction_intent: TransactionIntentV2 {
+                transaction_header: TransactionHeaderV2 { notary_public_key: Ed25519PrivateKey::from_u64(1337).unwrap().public_key().into(), notary_is_signatory: false, tip_basis_points: 0 },
+                root_intent_core: nc_core(root_children, 7),
+                non_root_subintents: NonRootSubintentsV2(subs),
+            },
+            transaction_intent_signatures: IntentSignaturesV2::none(),
+            non_root_subintent_signatures: NonRootSubintentSignaturesV2 { by_subintent: (0..n).map(|_| IntentSignaturesV2::none()).collect() },
+        },
+        notary_signature: NotarySignatureV2(SignatureV1::Ed25519(Ed25519Signature([0u8; Ed25519Signature::LENGTH]))),
+    }
+}
+/// overwrites every occurrence of `from` with `to`
+fn nc_overwrite(mut payload: Vec<u8>, from: &[u8; 32], to: &[u8; 32]) -> Vec<u8> {
+    let mut i = 0;
+    let mut n = 0;
+    while i + 32 <= payload.len() {
+        if &payload[i..i + 32] == from {
+            payload[i..i + 32].copy_from_slice(to);
+            i += 32;
+            n += 1;
+        } else {
+            i += 1;
+        }
+    }
+    assert!(n >= 1, "harness: hash to overwrite not found");
+    payload
+}
+fn nc_core_content(c: &PreparedIntentCoreV2) -> Value {
+    json!({
+        "header": hex::encode(manifest_encode(&c.header.inner).unwrap()),
+        "children": c.children.children.iter().map(|x| hex::encode(x.hash.as_hash().0)).collect::<Vec<_>>(),
+        "instructions": hex::encode(manifest_encode(&*c.instructions.inner.0).unwrap()),
+        "message": hex::encode(manifest_encode(&c.message.inner).unwrap()),
+        "blobs": c.blobs.blobs_by_hash.keys().map(|h| hex::encode(h.0)).collect::<Vec<_>>(),
+    })
+}
+struct NcObs {
+    name: String,
+    bytes: Vec<u8>,
+    prepared: bool,
+    content: String,
+    ev: Value,
+}
+fn nc_observe_subintent(name: &str, bytes: Vec<u8>) -> NcObs {
+    let settings = permissive();
+    let raw = RawSubintent::from_vec(bytes.clone());
+    let prep = catch(|| PreparedSubintentV2::prepare(&raw, &settings));
+    let dec = catch(|| SubintentV2::from_raw(&raw));
+    let (prepared, perr, id, content) = match &prep {
+        Ok(Ok(p)) => (true, String::new(), hex::encode(p.subintent_hash().as_hash().0), nc_core_content(&p.intent_core).to_string()),
+        Ok(Err(e)) => (false, format!("{:?}", e).chars().take(60).collect(), String::new(), String::new()),
+        Err(_) => (false, "panic".into(), String::new(), String::new()),
+    };
+    let (decoded, roundtrip) = match &dec {
+        Ok(Ok(m)) => (true, m.to_raw().map(|r| r.to_vec() == bytes).unwrap_or(false)),
+        _ => (false, false),
+    };
+    let ev = json!({"a": "noncanon", "payload": name, "kind": "subintent", "panic": prep.is_err() || dec.is_err(), "prepared": prepared, "prepare_error": perr,
+                    "decoded": decoded, "roundtrip": roundtrip, "id": id, "content": hex::encode(&hash(content.as_bytes()).0[..12])});
+    NcObs { name: name.to_string(), bytes, prepared, content, ev }
+}
+fn nc_observe_notarized(name: &str, bytes: Vec<u8>) -> NcObs {
+    let settings = permissive();
+    let raw = RawNotarizedTransaction::from_vec(bytes.clone());
+    let prep = catch(|| PreparedNotarizedTransactionV2::prepare(&raw, &settings));
+    let dec = catch(|| NotarizedTransactionV2::from_raw(&raw));
+    let (prepared, perr, id, content) = match &prep {
+        Ok(Ok(p)) => {
+            let ti = &p.signed_intent.transaction_intent;
+            let subs: Vec<Value> = ti.non_root_subintents.subintents.iter().map(|s| nc_core_content(&s.intent_core)).collect();
+            let content = json!({"root": nc_core_content(&ti.root_intent_core), "subintents": subs,
+                                 "header": hex::encode(manifest_encode(&ti.transaction_header.inner).unwrap())}).to_string();
+            (true, String::new(), hex::encode(p.transaction_intent_hash().as_hash().0), content)
+        }
+        Ok(Err(e)) => (false, format!("{:?}", e).chars().take(60).collect(), String::new(), String::new()),
+        Err(_) => (false, "panic".into(), String::new(), String::new()),
+    };
+    let (decoded, roundtrip) = match &dec {
+        Ok(Ok(m)) => (true, m.to_raw().map(|r| r.to_vec() == bytes).unwrap_or(false)),
+        _ => (false, false),
+    };
+    let ev = json!({"a": "noncanon", "payload": name, "kind": "notarized_v2", "panic": prep.is_err() || dec.is_err(), "prepared": prepared, "prepare_error": perr,
+                    "decoded": decoded, "roundtrip": roundtrip, "id": id, "content": hex::encode(&hash(content.as_bytes()).0[..12])});
+    NcObs { name: name.to_string(), bytes, prepared, content, ev }
+}
+fn noncanon() {
+    let mut out = Out::new();
+    let (h1, h2, h3) = ([0x11u8; 32], [0x22u8; 32], [0x33u8; 32]);
+    let sub = |children: &[[u8; 32]], disc: u64| SubintentV2 { intent_core: nc_core(children, disc) };
+    let raw_sub = |s: &SubintentV2| s.to_raw().unwrap().to_vec();
+    let raw_tx = |t: &NotarizedTransactionV2| t.to_raw().unwrap().to_vec();
+    // subintent payloads: canonical [h1], [h1, h2], [h2, h1], [h1, h2, h3]; crafted [h1, h1], [h1, h1, h3], [h1, h3, h1] -> via overwrite, [h1, h1, h1]
+    let mut groups: Vec<Vec<NcObs>> = vec![];
+    let mut g = vec![];
+    g.push(nc_observe_subintent("sub [h1]", raw_sub(&sub(&[h1], 7))));
+    g.push(nc_observe_subintent("sub [h1,h2]", raw_sub(&sub(&[h1, h2], 7))));
+    g.push(nc_observe_subintent("sub [h2,h1]", raw_sub(&sub(&[h2, h1], 7))));
+    g.push(nc_observe_subintent("sub [h1,h1] (crafted)", nc_overwrite(raw_sub(&sub(&[h1, h2], 7)), &h2, &h1)));
+    g.push(nc_observe_subintent("sub [h1,h3]", raw_sub(&sub(&[h1, h3], 7))));
+    g.push(nc_observe_subintent("sub [h1,h1,h3] (crafted)", nc_overwrite(raw_sub(&sub(&[h1, h2, h3], 7)), &h2, &h1)));
+    g.push(nc_observe_subintent("sub [h1,h3,h1] (crafted)", nc_overwrite(raw_sub(&sub(&[h1, h3, h2], 7)), &h2, &h1)));
+    g.push(nc_observe_subintent("sub [h1,h1,h1] (crafted)", nc_overwrite(nc_overwrite(raw_sub(&sub(&[h1, h2, h3], 7)), &h2, &h1), &h3, &h1)));
+    groups.push(g);
+    // notarized V2: duplicated child of the transaction intent (root) core
+    let mut g = vec![];
+    g.push(nc_observe_notarized("tx root [h1]", raw_tx(&nc_notarized(&[h1], vec![]))));
+    g.push(nc_observe_notarized("tx root [h1,h2]", raw_tx(&nc_notarized(&[h1, h2], vec![]))));
+    g.push(nc_observe_notarized("tx root [h1,h1] (crafted)", nc_overwrite(raw_tx(&nc_notarized(&[h1, h2], vec![])), &h2, &h1)));
+    g.push(nc_observe_notarized("tx root [h1,h1,h3] (crafted)", nc_overwrite(raw_tx(&nc_notarized(&[h1, h2, h3], vec![])), &h2, &h1)));
+    groups.push(g);
+    // notarized V2: duplicated child inside a non-root subintent; the same subintent listed twice (expressible in the model: a Vec)
+    let mut g = vec![];
+    g.push(nc_observe_notarized("tx sub [h1]", raw_tx(&nc_notarized(&[], vec![sub(&[h1], 8)]))));
+    g.push(nc_observe_notarized("tx sub [h1,h2]", raw_tx(&nc_notarized(&[], vec![sub(&[h1, h2], 8)]))));
+    g.push(nc_observe_notarized("tx sub [h1,h1] (crafted)", nc_overwrite(raw_tx(&nc_notarized(&[], vec![sub(&[h1, h2], 8)])), &h2, &h1)));
+    g.push(nc_observe_notarized("tx subintents [s]", raw_tx(&nc_notarized(&[], vec![sub(&[], 9)]))));
+    g.push(nc_observe_notarized("tx subintents [s,s]", raw_tx(&nc_notarized(&[], vec![sub(&[], 9), sub(&[], 9)]))));
+    groups.push(g);
+    for g in &groups {
+        for o in g {
+            out.emit(&o.ev);
+        }
+        for i in 0..g.len() {
+            for j in (i + 1)..g.len() {
+                out.emit(&json!({"a": "pair", "x": g[i].name, "y": g[j].name, "same_bytes": g[i].bytes == g[j].bytes,
+                                 "both_prepared": g[i].prepared && g[j].prepared, "same_content": g[i].prepared && g[j].prepared && g[i].content == g[j].content}));
             }
         }
     }
